@@ -195,7 +195,7 @@ impl Check for C07Check {
     fn components(&self) -> Value {
         json!({"real": ["alpha_g_detector::chronobox::chronobox_fifo (winnow parser)", "FifoEntry accessors"],
                "model": ["Chronobox FIFO stream generator", "DAQ reader cutting the stream into pieces", "reference word-at-a-time parser"],
-               "simulated": ["allocator limit: the processes run under a 4 GiB address-space limit, so a wild allocation fails (abort) instead of being over-committed"], "stub": []})
+               "simulated": ["caller stack: the parser runs on a 2 MiB thread stack (std default), so recursion whose depth the sender controls overflows as it would for an ordinary caller", "allocator limit: the processes run under a 4 GiB address-space limit, so a wild allocation fails (abort) instead of being over-committed"], "stub": []})
     }
     fn count(&self, tier: Tier) -> u64 {
         match tier {
@@ -235,6 +235,22 @@ impl Check for C07Check {
             _ => r.usize(80, 400),
         };
         let mut elems = Vec::new();
+        // one long run of CONSECUTIVE scaler blocks (an idle Chronobox: blocks keep coming, no edge
+        // arrives) between a few entries: depth of anything done per block is sender-controlled
+        if index % 61 == 38 {
+            let n_blocks = match tier {
+                Tier::Quick => *r.pick(&[3_000usize, 40_000]),
+                Tier::Thorough => *r.pick(&[3_000usize, 40_000, 150_000]),
+            };
+            elems.push(Elem::Ts { ch: 5, t24: 100 });
+            for _ in 0..n_blocks {
+                elems.push(Elem::Scaler { seed: r.next_u64() });
+            }
+            elems.push(Elem::Marker { top: false, counter: 0 });
+            elems.push(Elem::Ts { ch: 6, t24: 200 });
+            let cuts = vec![Cuts::Seeded { count: 4, seed: r.next_u64() }];
+            return serde_json::to_value(Scn::Stream { elems, flips: vec![], cuts }).unwrap();
+        }
         // long streams: half of them are ONE run of entries without any scaler block
         let no_scalers = n_elems >= 5_000 && r.chance(1, 2);
         let mut t: u32 = r.next_u32() & 0xFF_FFFF;
@@ -296,6 +312,112 @@ impl Check for C07Check {
     }
 
     fn run(&self, scenario: &Value, stats: &mut Stats) -> Outcome {
+        // The parser runs on a thread with the stack an ordinary caller has (2 MiB is std's default
+        // for spawned threads; the worker's own stack is 512 MiB and would hide recursion whose
+        // depth the sender controls). A stack overflow aborts the process: reported as no-abort.
+        std::thread::scope(|sc| {
+            std::thread::Builder::new()
+                .stack_size(2 << 20)
+                .spawn_scoped(sc, || run_on_caller_stack(scenario, stats))
+                .expect("spawn C07 runner thread")
+                .join()
+                .unwrap_or_else(|p| std::panic::resume_unwind(p))
+        })
+    }
+
+    fn shrink(&self, scenario: &Value) -> Vec<Value> {
+        let scn: Scn = match serde_json::from_value(scenario.clone()) {
+            Ok(s) => s,
+            Err(_) => return vec![],
+        };
+        let mut out = Vec::new();
+        if let Scn::Stream { elems, flips, cuts } = scn {
+            let total = encode_elems(&elems).len();
+            // drop elements (adjusting explicit cuts is not attempted: cuts beyond the end are clamped)
+            let n = elems.len();
+            let mut chunk = n / 2;
+            let bounds_all = element_bounds(&elems);
+            while chunk >= 1 {
+                // at most 16 evenly spaced removal positions per chunk size (bounded memory even for
+                // 70 000-element streams); every position once the stream is small
+                let positions: Vec<usize> = {
+                    let count = n / chunk;
+                    if count <= 16 || n <= 64 {
+                        (0..count).map(|k| k * chunk).collect()
+                    } else {
+                        (0..16).map(|k| (k * (count - 1) / 15) * chunk).collect()
+                    }
+                };
+                for i in positions {
+                    if i + chunk > n {
+                        continue;
+                    }
+                    let mut e = elems.clone();
+                    e.drain(i..i + chunk);
+                    let removed: usize = bounds_all[i..i + chunk].iter().map(|b| b.1 - b.0).sum();
+                    let start = bounds_all[i].0;
+                    let adj = |c: &Cuts| match c {
+                        Cuts::Explicit(l) => Cuts::Explicit(
+                            l.iter()
+                                .map(|cut| cut.iter().map(|&p| if p >= start + removed { p - removed } else { p.min(start) }).collect())
+                                .collect(),
+                        ),
+                        o => o.clone(),
+                    };
+                    let f2: Vec<usize> = flips
+                        .iter()
+                        .filter_map(|&f| {
+                            let byte = f / 8;
+                            if byte < start {
+                                Some(f)
+                            } else if byte >= start + removed {
+                                Some(f - removed * 8)
+                            } else {
+                                None
+                            }
+                        })
+                        .collect();
+                    if f2.len() == flips.len() {
+                        out.push(serde_json::to_value(Scn::Stream { elems: e, flips: f2, cuts: cuts.iter().map(adj).collect() }).unwrap());
+                    }
+                }
+                chunk /= 2;
+                if out.len() > 400 {
+                    break;
+                }
+            }
+            for i in 0..flips.len() {
+                let mut f = flips.clone();
+                f.remove(i);
+                out.push(serde_json::to_value(Scn::Stream { elems: elems.clone(), flips: f, cuts: cuts.clone() }).unwrap());
+            }
+            // fewer cuts in explicit histories
+            for (k, c) in cuts.iter().enumerate() {
+                if let Cuts::Explicit(l) = c {
+                    for (j, cut) in l.iter().enumerate() {
+                        for d in 0..cut.len() {
+                            let mut c2 = cut.clone();
+                            c2.remove(d);
+                            let mut l2 = l.clone();
+                            l2[j] = c2;
+                            let mut cs = cuts.clone();
+                            cs[k] = Cuts::Explicit(l2);
+                            out.push(serde_json::to_value(Scn::Stream { elems: elems.clone(), flips: flips.clone(), cuts: cs }).unwrap());
+                        }
+                    }
+                }
+            }
+            let _ = total;
+        }
+        out
+    }
+
+    fn exhaustive(&self, _tier: Tier) -> bool {
+        false
+    }
+}
+
+fn run_on_caller_stack(scenario: &Value, stats: &mut Stats) -> Outcome {
         let scn: Scn = serde_json::from_value(scenario.clone()).expect("C07 scenario");
         let mut viol: Vec<Violation> = Vec::new();
         let mut log = H64::new();
@@ -441,6 +563,24 @@ impl Check for C07Check {
                 if re.len() > 65536 && !elems.iter().any(|e| matches!(e, Elem::Scaler { .. })) {
                     stats.probe("run_of_more_than_65536_entries_without_scaler_block");
                 }
+                {
+                    // longest run of consecutive scaler blocks
+                    let (mut best, mut cur) = (0usize, 0usize);
+                    for e in &elems {
+                        if matches!(e, Elem::Scaler { .. }) {
+                            cur += 1;
+                            best = best.max(cur);
+                        } else {
+                            cur = 0;
+                        }
+                    }
+                    if best >= 3_000 {
+                        stats.probe("run_of_ge_3000_consecutive_scaler_blocks");
+                    }
+                    if best >= 40_000 {
+                        stats.probe("run_of_ge_40000_consecutive_scaler_blocks");
+                    }
+                }
                 if rc == stream.len() {
                     stats.probe("stream_fully_valid");
                 } else {
@@ -569,95 +709,3 @@ impl Check for C07Check {
             }
         }
     }
-
-    fn shrink(&self, scenario: &Value) -> Vec<Value> {
-        let scn: Scn = match serde_json::from_value(scenario.clone()) {
-            Ok(s) => s,
-            Err(_) => return vec![],
-        };
-        let mut out = Vec::new();
-        if let Scn::Stream { elems, flips, cuts } = scn {
-            let total = encode_elems(&elems).len();
-            // drop elements (adjusting explicit cuts is not attempted: cuts beyond the end are clamped)
-            let n = elems.len();
-            let mut chunk = n / 2;
-            let bounds_all = element_bounds(&elems);
-            while chunk >= 1 {
-                // at most 16 evenly spaced removal positions per chunk size (bounded memory even for
-                // 70 000-element streams); every position once the stream is small
-                let positions: Vec<usize> = {
-                    let count = n / chunk;
-                    if count <= 16 || n <= 64 {
-                        (0..count).map(|k| k * chunk).collect()
-                    } else {
-                        (0..16).map(|k| (k * (count - 1) / 15) * chunk).collect()
-                    }
-                };
-                for i in positions {
-                    if i + chunk > n {
-                        continue;
-                    }
-                    let mut e = elems.clone();
-                    e.drain(i..i + chunk);
-                    let removed: usize = bounds_all[i..i + chunk].iter().map(|b| b.1 - b.0).sum();
-                    let start = bounds_all[i].0;
-                    let adj = |c: &Cuts| match c {
-                        Cuts::Explicit(l) => Cuts::Explicit(
-                            l.iter()
-                                .map(|cut| cut.iter().map(|&p| if p >= start + removed { p - removed } else { p.min(start) }).collect())
-                                .collect(),
-                        ),
-                        o => o.clone(),
-                    };
-                    let f2: Vec<usize> = flips
-                        .iter()
-                        .filter_map(|&f| {
-                            let byte = f / 8;
-                            if byte < start {
-                                Some(f)
-                            } else if byte >= start + removed {
-                                Some(f - removed * 8)
-                            } else {
-                                None
-                            }
-                        })
-                        .collect();
-                    if f2.len() == flips.len() {
-                        out.push(serde_json::to_value(Scn::Stream { elems: e, flips: f2, cuts: cuts.iter().map(adj).collect() }).unwrap());
-                    }
-                }
-                chunk /= 2;
-                if out.len() > 400 {
-                    break;
-                }
-            }
-            for i in 0..flips.len() {
-                let mut f = flips.clone();
-                f.remove(i);
-                out.push(serde_json::to_value(Scn::Stream { elems: elems.clone(), flips: f, cuts: cuts.clone() }).unwrap());
-            }
-            // fewer cuts in explicit histories
-            for (k, c) in cuts.iter().enumerate() {
-                if let Cuts::Explicit(l) = c {
-                    for (j, cut) in l.iter().enumerate() {
-                        for d in 0..cut.len() {
-                            let mut c2 = cut.clone();
-                            c2.remove(d);
-                            let mut l2 = l.clone();
-                            l2[j] = c2;
-                            let mut cs = cuts.clone();
-                            cs[k] = Cuts::Explicit(l2);
-                            out.push(serde_json::to_value(Scn::Stream { elems: elems.clone(), flips: flips.clone(), cuts: cs }).unwrap());
-                        }
-                    }
-                }
-            }
-            let _ = total;
-        }
-        out
-    }
-
-    fn exhaustive(&self, _tier: Tier) -> bool {
-        false
-    }
-}
